@@ -4,6 +4,7 @@ import (
 	"encoding/json"
 	"errors"
 	"fmt"
+	"github.com/cloudwego/gopkg/unsafex"
 	"math/rand"
 	"runtime/debug"
 	"sort"
@@ -54,6 +55,9 @@ type StructCase struct {
 	Method  StrSpec      `json:"method,omitempty"`
 	Mt      int          `json:"mt,omitempty"`
 	Seq     int          `json:"seq,omitempty"`
+	// RawHex (modes msg / msgexc): the message is given as bytes (hand-built: fields omitted, reordered, foreign peers'
+	// encodings) instead of being marshalled by the library
+	RawHex string `json:"rawhex,omitempty"`
 }
 
 // projectBytes renders b as segments, recognising runs (offset 0) of the candidate pattern seeds by content.
@@ -618,9 +622,71 @@ func runNocopyRaw(c *StructCase, w *TraceWriter, seeds []int) {
 	}
 }
 
+// refDirect keeps the pieces BY REFERENCE, as a real zero-copy writer does until it flushes
+type refDirect struct {
+	pieces [][]byte
+	remain []int
+}
+
+func (r *refDirect) WriteDirect(b []byte, remainCap int) error {
+	r.pieces = append(r.pieces, b)
+	r.remain = append(r.remain, remainCap)
+	return nil
+}
+
+// nocopyStringFromStack renders the value into a local scratch array, converts it without copying and hands the string
+// to WriteStringNocopy: the writer keeps the bytes beyond this frame, so they must not live in it
+//
+//go:noinline
+func nocopyStringFromStack(val []byte, rd *refDirect, buf []byte) int {
+	var arr [16384]byte
+	n := copy(arr[:], val)
+	s := unsafex.BinaryToString(arr[:n])
+	return thrift.Binary.WriteStringNocopy(buf, rd, s)
+}
+
+//go:noinline
+func nocopyBinaryFromStack(val []byte, rd *refDirect, buf []byte) int {
+	var arr [16384]byte
+	n := copy(arr[:], val)
+	return thrift.Binary.WriteBinaryNocopy(buf, rd, arr[:n])
+}
+
+// runNocopyStack: the value lives in the caller's frame; the pieces are looked at after that frame has returned and its
+// stack has been reused (post-hoc splice, as the property has it)
+func runNocopyStack(c *StructCase, w *TraceWriter, seeds []int) {
+	val := c.S[0].Bytes()
+	if len(val) < 4096 || len(val) > 16384 {
+		return
+	}
+	vj := Raw(`{"s1":` + segsOfStr(val, seeds) + `}`)
+	buf := make([]byte, 4+len(val))
+	rd := &refDirect{}
+	ret := 0
+	if c.Schema == "RawStr" {
+		ret = nocopyStringFromStack(val, rd, buf)
+	} else {
+		ret = nocopyBinaryFromStack(val, rd, buf)
+	}
+	useBigStack(0xEE)
+	useBigStack(0xEE)
+	useSomeStack(6)
+	var ds []string
+	for i, p := range rd.pieces {
+		ds = append(ds, fmt.Sprintf(`{"segs":%s,"remain":%d}`, projectBytes(p, seeds), rd.remain[i]))
+	}
+	k := ret
+	if k < 0 || k > len(buf) {
+		k = 0
+	}
+	w.Ev("nocopy", "schema", c.Schema, "val", vj, "linear", projectBytes(buf[:k], seeds), "ret", ret, "directs", Raw("["+strings.Join(ds, ",")+"]"),
+		"B", len(buf), "blen", 4+len(val), "copyret", 4+len(val), "haswriter", true, "ndirect", len(rd.pieces), "nlarge", 1, "how", "value-in-the-callers-frame")
+}
+
 func runNocopy(c *StructCase, w *TraceWriter, seeds []int) {
 	if c.Schema == "RawStr" || c.Schema == "RawBin" {
 		runNocopyRaw(c, w, seeds)
+		runNocopyStack(c, w, seeds)
 		return
 	}
 	v := c.build()
@@ -698,18 +764,22 @@ func runMsg(c *StructCase, w *TraceWriter, seeds []int) {
 	}
 	var out []byte
 	var merr error
-	func() {
-		defer func() {
-			if p := recover(); p != nil {
-				merr = fmt.Errorf("panic: %v", p)
-			}
+	if c.RawHex != "" {
+		out = hexToBytes(c.RawHex)
+	} else {
+		func() {
+			defer func() {
+				if p := recover(); p != nil {
+					merr = fmt.Errorf("panic: %v", p)
+				}
+			}()
+			out, merr = thrift.MarshalFastMsg(method, mt, int32(c.Seq), v)
 		}()
-		out, merr = thrift.MarshalFastMsg(method, mt, int32(c.Seq), v)
-	}()
-	w.Ev("msg_m", "schema", c.Schema, "method", projectBytes([]byte(method), seeds), "mt", int(mt), "seq", c.Seq, "val", val,
-		"ok", merr == nil, "out", projectBytes(out, seeds))
-	if merr != nil {
-		return
+		w.Ev("msg_m", "schema", c.Schema, "method", projectBytes([]byte(method), seeds), "mt", int(mt), "seq", c.Seq, "val", val,
+			"ok", merr == nil, "out", projectBytes(out, seeds))
+		if merr != nil {
+			return
+		}
 	}
 	in := out
 	if c.Mut != "" {
